@@ -6,6 +6,7 @@ import (
 	"math"
 	"sort"
 	"strings"
+	"sync"
 	"testing"
 	"time"
 
@@ -39,6 +40,8 @@ func TestPipelinedTxn(t *testing.T) {
 	rec := ev.For(t, "C16", "pipelined transactions on unistore: initial committed data on some of 3-8 keys, 0-4 region splits (on the smallest / largest written key, or off keys), flush thresholds of 1-3 keys (failpoints), a program of 4-20 steps set / delete / get / batch-get / forced flush / threshold-driven flush / flush-wait, ended by Commit or Rollback; every read is compared with a model (latest own write, else the initial data); after the end the store is polled (no lock expires) until the asynchronous range resolution is over; oracle: after Commit every written key has its last value (or a delete record) with one common commit ts and no lock of the transaction remains on any key; after Rollback no record and no lock of the transaction remains; the Flush requests carry strictly increasing generations and every buffered mutation is sent by exactly one generation; non-trivial = at least two flush generations and a read that falls through to flushed data, or a written key that is a region start; distinct = case text")
 	sim.EnableFailpoints()
 	pool := []string{"a", "b", "c", "d", "e", "f", "g", "h"}
+	var closing sync.WaitGroup
+	defer closing.Wait() // the process must not exit before the clusters are closed (each leaves a temp directory otherwise)
 	rapid.Check(t, func(t *rapid.T) {
 		nKeys := rapid.IntRange(3, 8).Draw(t, "nkeys")
 		keys := append([]string{}, rapid.Permutation(pool).Draw(t, "keys")[:nKeys]...)
@@ -91,7 +94,10 @@ func TestPipelinedTxn(t *testing.T) {
 		}
 		// closing a store waits for its background goroutines, and the range resolution of a pipelined transaction
 		// ends with a 5 s grace sleep before its last broadcast: close in the background
-		defer func() { go cl.Close() }()
+		defer func() {
+			closing.Add(1)
+			go func() { defer closing.Done(); cl.Close() }()
+		}()
 		ctx := context.Background()
 		if len(initial) > 0 {
 			txn, _ := cl.Clients[1].Store.Begin()
